@@ -1,28 +1,55 @@
-"""Append the cross table (which quick check catches which seeded change) to DESIGN.md from seeded/matrix.json."""
+"""Append the table of seeded changes to DESIGN.md.
+
+`seeded/matrix.json`       : every change against the quick check of its own property, and the clean tree against all twenty —
+                             run with the final harness (`seed_matrix.py <n> --target-only`);
+`seeded/matrix_cross.json` : the full cross table (every quick check against every change) from the last complete cross run,
+                             made with an earlier state of the harness (it lists which OTHER checks notice a change).
+"""
 import json
 import os
 
 V = os.path.dirname(os.path.dirname(os.path.abspath(__file__)))
 m = json.load(open(os.path.join(V, "seeded", "matrix.json")))
+try:
+    x = json.load(open(os.path.join(V, "seeded", "matrix_cross.json")))
+except OSError:
+    x = {}
 props = [f"C{i:02d}" for i in range(1, 21)]
-rows = ["| change | what it needs to manifest | caught by (quick tier; * = with a concrete failing input) |", "|---|---|---|"]
-for mut in sorted(k for k in m if k != "clean"):
+rows = ["| change | what it needs to manifest | own check (final harness) | other checks that notice it (cross run; * = with a concrete failing input) |", "|---|---|---|---|"]
+
+
+def key(k):
+    a, b = k.split("-")
+    return (a, int(b))
+
+
+n_in = n_tie = n_miss = 0
+for mut in sorted((k for k in m if k != "clean"), key=key):
     meta = json.load(open(os.path.join(V, "seeded", mut, "meta.json")))
-    res = m[mut]
-    caught = []
+    t = mut[:3]
+    v = m[mut].get(t)
+    if isinstance(v, list) and v[0] == 1:
+        own = "failing input" if v[1] != "nfif" else "broken tie only (no-failing-input-found)"
+        n_in += v[1] != "nfif"
+        n_tie += v[1] == "nfif"
+    else:
+        own = "**missed**"
+        n_miss += 1
+    others = []
     for c in props:
-        v = res.get(c)
-        if isinstance(v, list) and v[0] == 1:
-            caught.append(c + ("" if v[1] == "nfif" else "*"))
+        w = x.get(mut, {}).get(c)
+        if c != t and isinstance(w, list) and w[0] == 1:
+            others.append(c + ("" if w[1] == "nfif" else "*"))
     needs = meta.get("needs", "")[:230].replace("|", "/").replace("\n", " ")
-    rows.append(f"| {mut} | {needs} | {', '.join(caught) or '**missed**'} |")
+    rows.append(f"| {mut} | {needs} | {own} | {', '.join(others) or ('—' if mut in x else '(not in the cross run)')} |")
 clean = m.get("clean", {})
 alarms = [c for c, v in clean.items() if isinstance(v, list) and v[0] != 0]
 rows.append("")
-rows.append(f"Control: on the clean tree {len(clean)} quick checks ran in the same worker copies; alarms raised: {alarms or 'none'}.")
+rows.append(f"Own check, final harness: {n_in} changes caught with a concrete failing input, {n_tie} only by a broken tie, {n_miss} missed. "
+            f"Control: on the clean tree {len(clean)} quick checks ran in the same worker copies; alarms raised: {alarms or 'none'}.")
 text = open(os.path.join(V, "DESIGN.md")).read()
 a = text.index("<!-- SEED-TABLE -->")
 b = text.index("---------", a)
 text = text[:a] + "<!-- SEED-TABLE -->\n" + "\n".join(rows) + "\n\n" + text[b:]
 open(os.path.join(V, "DESIGN.md"), "w").write(text)
-print(len(rows) - 4, "changes tabulated")
+print(len(rows) - 4, "changes tabulated;", n_in, "failing input,", n_tie, "tie only,", n_miss, "missed")
